@@ -81,7 +81,7 @@ def run_job(engine, job):
         else:
             S, c, lay, cells = c02.build_file(job)
         files = {'in.c3d': gen.to_engine_cells(cells)}; assume = S.cons
-    return std_run(engine, job, obligations, 'c14.end', ID, job['name'], files=files, assume=assume)
+    return std_run(engine, job, obligations, 'c14.end', ID, job['name'], files=files, assume=assume, wall=200 if job.get('tier') != 'thorough' else 560)
 
 def native_confirm(nat, v):
     # value disagreements replay natively; "defined" findings are data-flow facts: confirmed natively by saving with
